@@ -108,14 +108,23 @@ func v16Read(kind int, ct, ce string, body []byte) (o v16Out) {
 	return
 }
 
+// v16Coding: the Content-Encoding the request declares.
 func v16Coding(coding int) string {
 	switch coding {
-	case 1:
+	case 1, 3:
 		return ENCODING_GZIP
 	case 2:
 		return ENCODING_DEFLATE
 	}
 	return ""
+}
+
+// v16Pack: how the body is really encoded (coding 3: a gzip stream of two members).
+func v16Pack(coding int) string {
+	if coding == 3 {
+		return "gzip2"
+	}
+	return v16Coding(coding)
 }
 
 func v16Value(tag string) (int64, string) {
@@ -130,7 +139,7 @@ func v16Value(tag string) (int64, string) {
 }
 
 // H_C16: write, then read back.
-// kind: 0 JSON, 1 XML; coding of the request body: 0 none, 1 gzip, 2 deflate; provider as in vProvider;
+// kind: 0 JSON, 1 XML; coding of the request body: 0 none, 1 gzip, 2 deflate, 3 gzip in two members; provider as in vProvider;
 // wmode: see v16Write; ctmode: how the request names the media type -
 //
 //	0 the Content-Type the writer set, verbatim; 1 that plus a symbolic parameter suffix (";charset=..." etc.);
@@ -139,7 +148,9 @@ func v16Value(tag string) (int64, string) {
 //
 // hist: requests read before, with the same provider - 0 none; 1 declared gzip, stream header destroyed; 2 declared
 // gzip, stream cut short; 3 declared gzip, body not compressed; 4 declared deflate, destroyed; 5 plain, document cut
-// short; 6 a well-formed gzip request carrying another value; 7 = 1 then 2; 8 = 4 then 6.
+// short; 6 a well-formed gzip request carrying another value; 7 = 1 then 2; 8 = 4 then 6; 9 a well-formed request of
+// the OTHER kind without a Content-Type header, read under a default request content type of that other kind; 10 the
+// same with an unregistered Content-Type.
 func H_C16(kind, coding, provider, wmode, ctmode, hist int) {
 	led := vNewLedger(vProvider(provider))
 	old := currentCompressorProvider
@@ -194,6 +205,24 @@ func H_C16(kind, coding, provider, wmode, ctmode, hist int) {
 			o = v16Read(kind, wct, ENCODING_DEFLATE, verifCorruptBody(verifPackBody(ENCODING_DEFLATE, chunks), 1))
 		case 5:
 			o = v16Read(kind, wct, "", verifCorruptBody(verifPackBody("", chunks), 0))
+		case 9, 10:
+			n2, s2 := v16Value("w")
+			chunks2, wct2 := v16Write(1-kind, wmode&1, n2, s2)
+			DefaultRequestContentType(wct2)
+			ct2 := ""
+			if h == 10 {
+				ct2 = "x/y"
+			}
+			o = v16Read(1-kind, ct2, "", verifPackBody("", chunks2))
+			DefaultRequestContentType("")
+			if ctmode == 2 || ctmode == 3 {
+				DefaultRequestContentType(wct)
+			}
+			verifAssert(!o.panicked, vMsg16Panic)
+			verifAssert(o.err == nil, vMsg16Err)
+			verifAssert(vImp(o.err == nil, vAnd(o.n == n2, o.s == s2)), vMsg16Equal)
+			verifCover("earlier-request-other-kind")
+			continue
 		case 6:
 			n2, s2 := v16Value("w")
 			chunks2, wct2 := v16Write(kind, wmode&1, n2, s2)
@@ -211,7 +240,7 @@ func H_C16(kind, coding, provider, wmode, ctmode, hist int) {
 		verifCover("earlier-broken-request")
 	}
 
-	o := v16Read(kind, ct, v16Coding(coding), verifPackBody(v16Coding(coding), chunks))
+	o := v16Read(kind, ct, v16Coding(coding), verifPackBody(v16Pack(coding), chunks))
 	verifObserveBool("error", o.err != nil)
 	verifObserveBool("panicked", o.panicked)
 	verifAssert(!o.panicked, vMsg16Panic)
